@@ -175,6 +175,22 @@ static bool arrays_canon(const CSRMatrix &m)
                 return false;
     return true;
 }
+// the format alone (no column bound, any element type): what is_canonical() has to decide
+static bool format_canonical(const CSRMatrix &m)
+{
+    if (m.p_.size() != (size_t)m.row_ + 1 || m.p_[0] != 0)
+        return false;
+    for (unsigned i = 0; i < m.row_; i++)
+        if (m.p_[i] > m.p_[i + 1])
+            return false;
+    if (m.p_[m.row_] != m.j_.size() || m.j_.size() != m.x_.size())
+        return false;
+    for (unsigned i = 0; i < m.row_; i++)
+        for (unsigned k = m.p_[i]; k + 1 < m.p_[i + 1]; k++)
+            if (m.j_[k] >= m.j_[k + 1])
+                return false;
+    return true;
+}
 static bool arrays_sorted(const CSRMatrix &m)
 {
     for (unsigned i = 0; i < m.row_; i++)
@@ -312,7 +328,9 @@ static void run_program(const std::string &line)
         dst.mi = mirror_of(dst.m);
         if (have_e) {
             size_t before = oracle.str().size();
+            emit_raw("\x02"); // entering the oracle: a crash from here on is the oracle's use of get()/is_canonical()
             check(op, dst.m, e, want_canon);
+            emit_raw("\x03");
             if (oracle.str().size() != before) {
                 // do not let one failure cascade
                 dst.mi.wf = dst.mi.canon = false;
@@ -402,11 +420,12 @@ static void run_program(const std::string &line)
                 Reg &R = reg(next());
                 bool b = R.m.is_canonical();
                 emit(b ? "B:1" : "B:0");
-                // is_canonical must accept every canonical matrix and reject unsorted / duplicate rows
-                if (R.mi.canon && !b)
+                // is_canonical must decide: sizes, p_[0] = 0, monotone row pointers, strictly increasing rows
+                bool expect = format_canonical(R.m);
+                if (expect && !b)
                     oracle << " canon:flag is_canonical() rejects a canonical matrix;";
-                if (R.mi.wf && !R.mi.canon && b && R.m.j_.size() > 0)
-                    oracle << " canon:flag is_canonical() accepts unsorted or duplicate column indices;";
+                if (!expect && b)
+                    oracle << " canon:flag is_canonical() accepts arrays that are not in canonical format;";
             } else if (c == "fmt") {
                 Reg &R = reg(next());
                 bool b = CSRMatrix::csr_has_canonical_format(R.m.p_, R.m.j_, R.m.row_);
@@ -680,14 +699,26 @@ static std::string run_forked_stream(const std::string &line, unsigned timeout_s
     close(fd[0]);
     int status = 0;
     waitpid(pid, &status, 0);
+    // strip the oracle markers; an unmatched \x02 means the child died inside the oracle
+    bool in_oracle = false;
+    std::string clean;
+    for (char ch : out) {
+        if (ch == '\x02')
+            in_oracle = true;
+        else if (ch == '\x03')
+            in_oracle = false;
+        else
+            clean += ch;
+    }
     if (WIFSIGNALED(status)) {
         int sig = WTERMSIG(status);
-        std::string sep = out.empty() ? "" : ";";
+        std::string sep = clean.empty() ? "" : ";";
+        std::string what = in_oracle ? "ORACLE" : "";
         if (sig == SIGALRM)
-            return out + sep + "HANG";
-        return out + sep + "CRASH:" + std::to_string(sig);
+            return clean + sep + what + "HANG";
+        return clean + sep + what + "CRASH:" + std::to_string(sig);
     }
-    return out;
+    return clean;
 }
 
 int main()
